@@ -76,6 +76,7 @@ CHECKS = {
    doc("VerifH_PipelineTotal", {"K": 2, "MENU": 1}, {"K": 3, "MENU": 1}, budget_violation=True, full_schema_lib=True),
    doc("VerifH_PasteEqualsInline", {"K": 5, "MENU": 1}, {"K": 6, "MENU": 1}, budget_violation=True, depth_budget=300),
    PGRAPH,
+   doc("VerifH_PipelineTotal", {"K": 3, "MENU": 2}, {"K": 4, "MENU": 2}, budget_violation=True, full_schema_lib=True, step_budget=3000000),
    FIXTURES,
   ],
   "assumptions": [
@@ -117,10 +118,11 @@ CHECKS = {
    doc("VerifH_DeterminismPathBinding", {}, {}, maporder=True, replay_repeat=30),
    doc("VerifH_CrossProject", {"K": 1}, {"K": 2}),
    CROSSINC,
+   doc("VerifH_Determinism", {"K": 3, "MENU": 2}, {"K": 4, "MENU": 2}, full_schema_lib=True),
   ],
   "assumptions": DOC_ASSUME + ["map iteration order is a nondeterministic choice: at every Next of a map range the engine forks over all not yet visited entries, independently in the two runs of the self-composition",
                                "a counterexample is replayed natively up to 30 times (the Go runtime picks the order at random)"],
-  "not_decided": DOC_NOT + ["byte-identical JSON (encoding/json not encoded)", "nondeterminism inside the schema library or the regex example generator", "cross-process / concurrent determinism",
+  "not_decided": DOC_NOT + ["byte-identical JSON (encoding/json not encoded)", "nondeterminism inside the schema library or the regex example generator beyond the generated examples of the template documents (MENU 2: a regex type with several matches embedded in an object's example; the clock model gives every reading a later instant)", "cross-process / concurrent determinism",
                             "map ranges over enum rules (compileUserTypeWithAllDependencies, prepareJSightSchema): they only matter when the schema library's AddRule fails for two rules at once"],
  },
  "C04": {
@@ -205,10 +207,11 @@ CHECKS = {
    MARSHAL,
    CROSSINC,
    doc("VerifH_CrossProject", {"K": 1}, {"K": 2}),
+   doc("VerifH_SharedOptions", {"K": 1}, {"K": 2}),
   ],
   "assumptions": ["lockset monitor: every load/store of the collection's data/order fields, of the map object and of the order slice's elements must happen with the collection's mutex held (write-held for writes); Lock on a held mutex = self-deadlock; no lock may remain held after the operation",
                   "violations of kind 'lock' are not replayed natively (a single-threaded run cannot exhibit them)",
-                  "sequential non-interference: (a) the bytes returned by one MarshalJSON of a collection are unchanged by later MarshalJSON calls of the same or another collection (encoding/json.Marshal replaced by a stub returning arbitrary non-empty bytes; sync.Pool modelled as one goroutine sees it: Get returns what was Put last); (b) a project validated after another project (also: at the same place of the file system with a different included file) gives the result it gives alone"],
+                  "sequential non-interference: (a) the bytes returned by one MarshalJSON of a collection are unchanged by later MarshalJSON calls of the same or another collection (encoding/json.Marshal replaced by a stub returning arbitrary non-empty bytes; sync.Pool modelled as one goroutine sees it: Get returns what was Put last); (b) a project validated after another project (also: at the same place of the file system with a different included file) gives the result it gives alone; (c) a project created with an Option value that was also used (together with a second banned-directives option) for another project gives the result it gives with a fresh option"],
   "not_decided": ["everything schedule-dependent: data races between goroutines, equality of concurrent and solo results under real interleavings, races inside the schema library / regexp / reggen",
                   "shared mutable package state is decided only through its sequential effects: a later validation or serialisation must not change or depend on an earlier one (VerifH_CrossProject*, VerifH_MarshalStable)"],
  },
